@@ -181,6 +181,11 @@ fn logical_requests(g: &mut Rng, secrets: &HashMap<String, String>) -> Vec<(Stri
             tokens.extend([j, j + 1, j + 2, j + 3, j + 4]);
         }
     }
+    // every CR of the body is a possible start of the delimiter: the bytes around it (a sample for large files)
+    let crs: Vec<usize> = body.iter().enumerate().filter(|(_, b)| **b == b'\r').map(|(j, _)| j).collect();
+    for &j in crs.iter().step_by((crs.len() / 40).max(1)) {
+        tokens.extend([j, j + 1, j + 2]);
+    }
     tokens.retain(|t| *t < body.len());
     tokens.sort_unstable();
     tokens.dedup();
@@ -238,6 +243,24 @@ fn partitions(g: &mut Rng, len: usize, tokens: &[usize], budget: usize) -> Vec<(
         let b = (*t + 1 + g.usize_below(3)).min(len);
         if a > 0 && b > a && b < len {
             out.push(("three-frames-around-token", vec![a, b - a]));
+        }
+    }
+    // cuts at two (three) tokens that may lie far apart: a frame ends at one structural position, a long frame follows,
+    // a later frame ends at another structural position
+    if tokens.len() >= 2 {
+        for _ in 0..(budget / 3).max(4) {
+            let mut ps: Vec<usize> = (0..(2 + g.usize_below(2))).map(|_| *g.pick(tokens)).filter(|p| *p > 0 && *p < len).collect();
+            ps.sort_unstable();
+            ps.dedup();
+            if ps.len() >= 2 {
+                let mut cuts = Vec::new();
+                let mut last = 0;
+                for p in ps {
+                    cuts.push(p - last);
+                    last = p;
+                }
+                out.push(("frames-ending-at-several-tokens", cuts));
+            }
         }
     }
     if len <= 6000 {
